@@ -14,11 +14,16 @@ Line protocol of the connection model (machine `conn`).
                                           S = k | again | fatal       : what send on o answers if called
         each answered by the observations of the op, in order:
         c:o  r:o:hex  d:o  e:o  R:o:R  S:o:n:S  X:o  T:o=flags,…        (or `bad-op`)
+  ca                                      `close()` event without a socket (server-wide close; W11)
+  st                                      `stopped` event reaches the server (W11)
+        answered like the ops above
   spec <observations>                     feed the *implementation's* observations of one op to the spec
                                           observer                                              -> ok | fail <clause>
-  cli reset | cli co ok|refused|timeout | cli cl | cli wr n | cli rd R | cli wt k|again|pipe|other | cli hu
+  cli reset | cli reset pipe (a Pipe() end: born connected) | cli co ok|refused|timeout|failed | cli un
+  (prepare_unregister) | cli st (stopped) | cli cl | cli wr n | cli rd R | cli wt k|again|pipe|other | cli hu
                                           client model; answered by C D r:hex E U …             (or `-`)
   clispec C D …                           `connected`/`disconnected` alternate, starting with C  -> ok | fail <clause>
+  clispec pipe D C D …                    the same for a Pipe() end (born connected): starting with D
 -/
 namespace CV.Drv
 namespace C12
@@ -118,6 +123,9 @@ def parseCliOp : List String → Option Client.Op
   | ["co", "ok"] => some (.connect .ok)
   | ["co", "refused"] => some (.connect .refused)
   | ["co", "timeout"] => some (.connect .timeout)
+  | ["co", "failed"] => some (.connect .failed)
+  | ["un"] => some .unregister
+  | ["st"] => some .stopped
   | ["cl"] => some .close
   | ["wr", n] => n.toNat?.map .write
   | ["rd", r] => (parseRecv r).map .readable
@@ -157,11 +165,18 @@ def connStep (s : St) : List String → St × String
                            | some c => s!"fail {c}")
     | none => (s, "bad-op")
   | ["cli", "reset"] => ({ s with c := {} }, "ok")
+  | ["cli", "reset", "pipe"] => ({ s with c := Client.pipeInit }, "ok")
+  | ["ca"] => let r := Conn.xstep s.m .closeAll; ({ s with m := r.1 }, showObsList r.2)
+  | ["st"] => let r := Conn.xstep s.m .stop; ({ s with m := r.1 }, showObsList r.2)
   | "cli" :: ts =>
     match parseCliOp ts with
     | some op =>
       let r := Client.step s.c op
       ({ s with c := r.1 }, if r.2.isEmpty then "-" else " ".intercalate (r.2.map showCliEv))
+    | none => (s, "bad-op")
+  | "clispec" :: "pipe" :: ts =>
+    match ts.mapM parseCliEv with
+    | some evs => (s, if Client.alternates true evs then "ok" else "fail connected-disconnected-not-paired")
     | none => (s, "bad-op")
   | "clispec" :: ts =>
     match ts.mapM parseCliEv with
